@@ -564,6 +564,12 @@ macro_rules! impl_num_traits {
             fn LN_2() -> Self {
                 MathConsts::LN_2
             }
+            fn LOG10_2() -> Self {
+                MathConsts::LOG10_2
+            }
+            fn LOG2_10() -> Self {
+                MathConsts::LOG2_10
+            }
             fn LOG10_E() -> Self {
                 MathConsts::LOG10_E
             }
